@@ -53,7 +53,7 @@ pub fn gen_mappings(rng: &mut Rng, nseg: usize, nsrc: u64, nnm: u64, neg: bool) 
         }
         if !first_in_line { text.push(64); }
         first_in_line = false;
-        let ndc = if neg && dc > 0 && rng.chance(1, 6) { rng.range(0, dc) } else { if rng.chance(1, 12) { (dc + vlq_class(rng, 6)).min((1 << 29) - 1) } else { dc + rng.range(0, 40) } };
+        let ndc = if neg && dc > 0 && rng.chance(1, 6) { rng.range(0, dc) } else { if rng.chance(1, 12) { (dc + vlq_class(rng, 6)).min((1 << 28) - 1) } else { dc + rng.range(0, 40) } };
         let mut vals = vec![ndc - dc];
         dc = ndc;
         let has_src = nsrc > 0 && rng.chance(5, 6);
